@@ -41,6 +41,7 @@ def write_replay(prop, case, cfg, kind, detail, src_path, inp=None):
           '# exit 1 = reproduced (kernel crashes on guard-page buffers, or kernel and reference outputs differ), exit 0 = not reproduced',
           'cd "$(dirname "$0")"', 'B=$(mktemp /tmp/fsv_replay_XXXXXX)',
           'clang++-14 ' + ' '.join(flags) + ' -o $B harness.cpp || { echo "REPRODUCED: harness does not compile in this configuration"; rm -f $B; exit 1; }',
+          '[ -f input_k.txt ] || { echo "harness compiles on this tree: not reproduced"; rm -f $B; exit 0; }',
           'K=$($B < input_k.txt); kc=$?', 'echo "kernel   : $K"']
     if case.ref_src is not None: sh += ['R=$($B < input_r.txt)', 'echo "reference: $R"']
     sh += ['rm -f $B', 'if [ $kc -ne 0 ]; then echo "REPRODUCED: kernel run died with status $kc (buffers are flush against guard pages)"; exit 1; fi']
